@@ -422,7 +422,7 @@ def plan(tier, seed):
         return sp
     sp = [{"mode": "exh", "depth": 4, "first": None, "timeout_s": 3600}]
     sp += [{"mode": "exh5", "first": [i], "timeout_s": 7200} for i in range(n)]
-    sp += [{"mode": "random", "n": 1250, "udp": i == 0, "timeout_s": 7200} for i in range(16)]
+    sp += [{"mode": "random", "n": 6000, "udp": i == 0, "timeout_s": 7200} for i in range(16)]
     return sp
 
 
